@@ -19,7 +19,21 @@ type boxGen struct {
 	r       *vfRand
 	nextSvc int
 	big     bool // include astronomically large blocks (C11)
-	bias    string
+	tight   bool // C07: very few addresses, one dominant sharing key, two ports: exhaustion and port conflicts everywhere
+}
+
+func (g *boxGen) genPools() []metallbv1beta1.IPAddressPool {
+	if !g.tight {
+		return vfGenPools(g.r, g.big, []string{"p1", "p2", "p3", "p4"})
+	}
+	// 1-2 pools with 1-3 addresses in total per family
+	crs := vfGenPools(g.r, false, []string{"p1", "p2"})
+	for i := range crs {
+		if len(crs[i].Spec.Addresses) > 1 {
+			crs[i].Spec.Addresses = crs[i].Spec.Addresses[:1]
+		}
+	}
+	return crs
 }
 
 var boxPortPalette = []v1.ServicePort{
@@ -77,6 +91,11 @@ func (g *boxGen) pickIP(s *boxStore, fam int) string {
 }
 
 func (g *boxGen) setPorts(svc *v1.Service) {
+	if g.tight {
+		n := vfPick(g.r, []int{1, 1, 2})
+		svc.Spec.Ports = append([]v1.ServicePort(nil), vfShuffled(g.r, boxPortPalette[:2])[:n]...)
+		return
+	}
 	n := vfPick(g.r, []int{1, 1, 2, 3})
 	svc.Spec.Ports = append([]v1.ServicePort(nil), vfShuffled(g.r, boxPortPalette)[:n]...)
 }
@@ -85,6 +104,9 @@ func (g *boxGen) setShareKey(svc *v1.Service) {
 	delete(svc.Annotations, AnnotationAllowSharedIP)
 	delete(svc.Annotations, DeprecatedAnnotationAllowSharedIP)
 	k := vfPick(g.r, []string{"", "", "k1", "k1", "k1", "k2"})
+	if g.tight {
+		k = vfPick(g.r, []string{"", "k1", "k1", "k1", "k1", "k1", "k1", "k2"})
+	}
 	if k == "" {
 		return
 	}
@@ -155,7 +177,10 @@ func (g *boxGen) setRequest(svc *v1.Service, s *boxStore) {
 			svc.Spec.LoadBalancerIP = g.pickIP(s, 4) // contradictory request
 		}
 	case 4, 5: // pool annotation
-		names := append(vfSortedKeys(s.Pools), "ghost")
+		names := []string{"ghost"}
+		for _, k := range vfSortedKeys(s.Pools) {
+			names = append(names, s.Pools[k].Name, s.Pools[k].Name)
+		}
 		val := vfPick(g.r, names)
 		if g.r.Chance(1, 4) {
 			svc.Annotations[DeprecatedAnnotationAddressPool] = val
@@ -306,7 +331,7 @@ func (g *boxGen) evPool(kind string) boxUserEvent {
 		var crs []metallbv1beta1.IPAddressPool
 		switch kind {
 		case "pool-new-layout":
-			crs = vfGenPools(g.r, g.big, []string{"p1", "p2", "p3", "p4"})
+			crs = g.genPools()
 		case "pool-regroup":
 			crs = vfRegroupPools(g.r, cur)
 		case "pool-flip":
@@ -357,7 +382,7 @@ func (g *boxGen) evPool(kind string) boxUserEvent {
 				}
 			}
 			if _, err := config.For(config.ClusterResources{Pools: crs, Namespaces: boxNsList(s)}, config.DontValidate); err != nil {
-				crs = vfGenPools(g.r, g.big, []string{"p1", "p2", "p3", "p4"})
+				crs = g.genPools()
 			}
 		}
 		if len(crs) == 0 {
@@ -418,7 +443,7 @@ func (cb *cbox) seedStore(g *boxGen) {
 		nn := n
 		s.Put(&nn)
 	}
-	crs := vfGenPools(g.r, g.big, []string{"p1", "p2", "p3", "p4"})
+	crs := g.genPools()
 	for i := range crs {
 		crs[i].Namespace = "metallb-system"
 		s.Put(&crs[i])
